@@ -43,12 +43,13 @@ func (k *c15K) fld(name string) string { return name }
 
 func checkC15(c *Ctx) {
 	r := c.R
-	r.Explanation = "Decides structural necessary conditions of C15 on package ttlcache. Only the exported API, haxmap and time are name anchors; unexported fields, the entry type, helpers and the goroutine body are resolved by role (the *haxmap.Map field of Cache, the type stored in it and its time.Time / value fields, the field of Cache with a Now() method, the integer field NewCache fills from CacheOptions.MaxTTL, the channel the goroutine started by NewCache closes / selects on) and every rule follows calls into same-package helpers, bound methods, closures and func values with known targets. (U1) every return of Get that can report ok=true is reached, on every path, only under `entry.exp > clock.Now()` (strict), entry being the result of that call's lookup on the map and Now() a reading of the cache's own clock taken during the call; (U2) every returning path of Set stores into the map; the stored expiry is, on every path, clock.Now().Add(T*time.Second) with Now() read from the cache clock during Set (an expiry taken from an existing entry is a violation); T is ttl only where maxTTL<=0 or ttl<=maxTTL is established and maxTTL only where maxTTL>0 and ttl>=maxTTL is; the stored value is Set's value parameter; NewCache wires CacheOptions.MaxTTL into the cap field; (U3) every key Cleanup hands to a delete is the key parameter of a ForEach callback over the map, committed on every path only under `clock.Now() >(=) exp` of that callback's own entry — the key slice must also be created EMPTY (a make with non-zero length hands n empty-string keys to the delete) and must not receive constant keys — (predicates passed as func values are evaluated in Cleanup's context); every delete the background goroutine can perform (through Cleanup or directly through the helpers Cleanup is made of, whatever the func value) satisfies the same expired-only condition, it performs no other mutation of the store, and none of it is started with `go`; (U4) every return of Stop is preceded by a receive on the done channel; Stop closes the stop channel, not after waiting; the done signal is given only by the goroutine NewCache starts, on every exit, and is that goroutine's LAST action — no call (cleaning, or any other exit work such as a deferred ticker Stop registered before it) follows it, in the body, in the deferred calls or inside the helper that gives it; every wait of that goroutine is a select with a stop-channel case after which the wait is not reached again; the done channel is created before the goroutine starts and NewCache always starts it; (U5) Delete always deletes from the map; in Reset's context the ForEach callback commits every key on every feasible path and never stops the iteration, and the keys are deleted; (U6) the map is mutated only by the audited entry points and Get/Set/Delete pass their key unchanged. NOT decided: the history-level claim itself (rests on haxmap's semantics and the documented cleanup/refresh race); concurrency of Set/Get; ttl<=0 (outside the quantifier: NOTE only); overflow of ttl*time.Second; that the periodic cleaner actually runs Cleanup; join/stop mechanisms other than channel fields of Cache (sync.WaitGroup, context) are UNDECIDED."
+	r.Explanation = "Decides structural necessary conditions of C15 on package ttlcache. Only the exported API, haxmap and time are name anchors; unexported fields, the entry type, helpers and the goroutine body are resolved by role among the state fields of Cache and of the package's struct types nested in it (the haxmap.Map field, possibly behind an interface boxed once; the type stored in it and its time.Time / value fields; the field with a Now() method, or a func() time.Time field bound once to it; the integer field NewCache fills from CacheOptions.MaxTTL; the done channel or sync.WaitGroup the goroutine started by NewCache signals and Stop waits on; the stop channel Stop closes and that goroutine selects on) and every rule follows calls into same-package helpers, bound methods, closures, func values with known targets (parameters, locals, fields stored once, elements of literal tables run by a counted loop) and interface calls whose implementation is known; flags, tuples and small enums returned by such helpers stay correlated with the caller's branches; a boolean state field stored once stands for the condition stored. (U1) every return of Get that can report ok=true is reached, on every path, only under `entry.exp > clock.Now()` (strict), entry being the result of that call's lookup on the map and Now() a reading of the cache's own clock taken during the call; (U2) every returning path of Set stores into the map; the stored expiry is, on every path, clock.Now().Add(T*time.Second) with Now() read from the cache clock during Set (an expiry taken from an existing entry is a violation); T is ttl only where maxTTL<=0 or ttl<=maxTTL is established and maxTTL only where maxTTL>0 and ttl>=maxTTL is; the stored value is Set's value parameter; NewCache wires CacheOptions.MaxTTL into the cap field; (U3) every key Cleanup hands to a delete is the key parameter of a ForEach callback over the map, committed on every path only under `clock.Now() >(=) exp` of that callback's own entry — the key slice must also be created EMPTY (a make with non-zero length hands n empty-string keys to the delete) and must not receive constant keys — (predicates passed as func values are evaluated in Cleanup's context); every delete the background goroutine can perform (through Cleanup or directly through the helpers Cleanup is made of, whatever the func value) satisfies the same expired-only condition, it performs no other mutation of the store, and none of it is started with `go`; (U4) every return of Stop is preceded by a wait for the done signal (receive on the done channel / WaitGroup.Wait); Stop closes the stop channel, not after waiting; the done signal is given only by the goroutine NewCache starts, on every exit, and is that goroutine's LAST action — no call (cleaning, or any other exit work such as a deferred ticker Stop registered before it) follows it, in the body, in the deferred calls or inside the helper that gives it; every wait of that goroutine is a select with a stop-channel case after which the wait is not reached again; the done signal is armed (make(chan) stored / WaitGroup.Add) before the goroutine starts and NewCache always starts it; (U5) Delete always deletes from the map; in Reset's context the ForEach callback commits every key on every feasible path and never stops the iteration, and the keys are deleted; (U6) the map is mutated only by the audited entry points and Get/Set/Delete pass their key unchanged. NOT decided: the history-level claim itself (rests on haxmap's semantics and the documented cleanup/refresh race); concurrency of Set/Get; ttl<=0 (outside the quantifier: NOTE only); overflow of ttl*time.Second; that the periodic cleaner actually runs Cleanup; a stop signal that is not a channel state field (context, polling), key slices filled by index, Unix()-style time comparisons, flags / func fields stored more than once and helper chains deeper than the inlining bound are UNDECIDED."
 	r.Assumptions = append(r.Assumptions,
 		"haxmap.Map Get/Set/Del/ForEach have their documented map semantics (ForEach stops when the callback returns false)",
 		"time.Time.After/Before/Equal/Compare/Sub/Add and clock.Now/Since have their documented meaning",
 		"the cap and clock fields of Cache are written only while NewCache runs (checked: a store elsewhere makes the check UNDECIDED)",
-		"function-typed arguments handed to library code (ForEach, sync.Once.Do) run during that call")
+		"function-typed arguments handed to library code (ForEach, sync.Once.Do) run during that call",
+		"state fields are identified by (struct type, field): two Cache values are not distinguished; a literal table of steps run by a counted loop without break executes every element in order; integer overflow is not modelled in a*k comparisons")
 
 	r.Rule("C15.U1-get-strict", "Get reports a hit only under entry.exp > clock.Now() (strict; entry from this Get's lookup; cache clock read during Get)", 1)
 	r.Rule("C15.U2-set-store", "every returning path of Set stores the entry into the map", 1)
@@ -56,14 +57,14 @@ func checkC15(c *Ctx) {
 	r.Rule("C15.U2-set-cap", "T = ttl only where no cap applies, T = maxTTL only where maxTTL>0 and ttl>=maxTTL", 2)
 	r.Rule("C15.U2-set-value", "the entry stored by Set carries Set's value parameter", 1)
 	r.Rule("C15.U2-wire-maxttl", "NewCache stores CacheOptions.MaxTTL into the cap field Set reads", 1)
-	r.Rule("C15.U3-cleanup-expired-only", "every key deleted by Cleanup was committed under clock.Now() >(=) entry.exp for that key's own entry", 1)
+	r.Rule("C15.U3-cleanup-expired-only", "every key deleted by Cleanup was committed under clock.Now() >(=) entry.exp for that key's own entry; the key slice starts empty and receives no constant key", 1)
 	r.Rule("C15.U3-periodic-via-cleanup", "every delete the background goroutine can perform (through Cleanup, helpers, method values, func variables) removes expired entries only; it does not otherwise mutate the store", 1)
-	r.Rule("C15.U4-stop-waits", "every return of Stop is preceded by a receive on the done channel", 1)
+	r.Rule("C15.U4-stop-waits", "every return of Stop is preceded by a wait for the done signal (receive on the done channel / WaitGroup.Wait)", 1)
 	r.Rule("C15.U4-stop-signals", "Stop closes the stop channel, and never after having waited on the done channel", 1)
-	r.Rule("C15.U4-cleaner-exit", "the done channel is closed only by the goroutine NewCache starts, on every exit, and nothing cleans after the close", 1)
+	r.Rule("C15.U4-cleaner-exit", "the done signal is given only by the goroutine NewCache starts, on every exit, and is its last action (no call follows it)", 1)
 	r.Rule("C15.U4-cleaner-synchronous", "inside the cleaner goroutine (and inside Cleanup) nothing that can mutate the map is started with go", 1)
 	r.Rule("C15.U4-cleaner-stopcase", "every wait of the cleaner goroutine is a select with a stop-channel case after which the wait is not reached again", 1)
-	r.Rule("C15.U4-cleaner-start", "the done channel is created before the cleaner is started and NewCache always starts it", 1)
+	r.Rule("C15.U4-cleaner-start", "the done signal is armed (make(chan) / WaitGroup.Add) before the cleaner is started and NewCache always starts it", 1)
 	r.Rule("C15.U5-delete", "every return of Delete is preceded by a delete from the map", 1)
 	r.Rule("C15.U5-reset", "Reset commits every key (callback never stops the iteration, commits on every feasible path) and deletes the committed keys", 1)
 	r.Rule("C15.U6-same-key", "Get, Set and Delete address the map with the key exactly as given (a transformed key at only some of them cannot be decided)", 3)
